@@ -300,6 +300,14 @@ def part_c(ctx):
                         # the variants-axis chunk is global (partitions are aligned to it); edit the other axes
                         f["chunks"] = [c if j == 0 else max(1, c // 2) for j, c in enumerate(f["chunks"])]
                         edits[f["name"]] = ("chunks", f["chunks"])
+                    elif r.random() < 0.35 and f["chunks"] and f["chunks"][0] > 1 and f["name"] not in ("call_genotype", "call_genotype_mask", "call_genotype_phased", "variant_id", "variant_id_mask",
+                                                                                                   "variant_contig", "variant_position", "variant_length"):
+                        # (arrays that are written or read in lockstep -- id / id mask, the genotype trio, the three columns the
+                        # region index is built from -- must keep a common chunking: bio2zarr refuses anything else with an error)
+                        # ... except that a proper divisor of it keeps every partition chunk-aligned: only the grid changes
+                        divs = [k for k in range(1, f["chunks"][0]) if f["chunks"][0] % k == 0]
+                        f["chunks"] = [r.choice(divs)] + list(f["chunks"][1:])
+                        edits[f["name"]] = ("chunks", f["chunks"])
                 sp_path = os.path.join(d, f"schema{si}.json")
                 with open(sp_path, "w") as fh:
                     json.dump(sd, fh)
